@@ -9,6 +9,13 @@ def decLink (f : String) : Option Link :=
   | [r, h] => match decOpt r, decOpt h with
     | some r, some h => some { rel := r, href := h }
     | _, _ => none
+  | [r, h, others] =>
+    -- further members of the link dict, `k=v;k=v` (literally stored: the parser builds link dicts with the constructor, which does not alias)
+    match decOpt r, decOpt h, (others.splitOn ";").mapM (fun kv => match kv.splitOn "=" with
+        | [k, v] => (match dec k, dec v with | some k, some v => some (k, v) | _, _ => none)
+        | _ => none) with
+    | some r, some h, some os => some { rel := r, href := h, other := os }
+    | _, _, _ => none
   | _ => none
 
 def decList (f : String) (g : String → Option α) : Option (List α) :=
@@ -21,14 +28,17 @@ def decVal (f : String) : Option Val :=
   if f.startsWith "s:" then (dec (f.drop 2).toString).map Val.str
   else if f.startsWith "l:" then (decList (f.drop 2).toString decLink).map Val.links
   else if f.startsWith "t:" then (decList (f.drop 2).toString dec).map Val.tags
+  else if f == "n:" then some Val.none
   else none
 
-def encLink (l : Link) : String := encOpt l.rel ++ "/" ++ encOpt l.href
+def encLink (l : Link) : String :=
+  encOpt l.rel ++ "/" ++ encOpt l.href ++ (if l.other.isEmpty then "" else "/" ++ ";".intercalate (l.other.map fun (k, v) => enc k ++ "=" ++ enc v))
 
 def encVal : Val → String
   | .str s => "s:" ++ enc s
   | .links ls => "l:" ++ ",".intercalate (ls.map encLink)
   | .tags ts => "t:" ++ ",".intercalate (ts.map enc)
+  | .none => "n:"
 
 def encErr : Err → String
   | .keyError _ => "KeyError"
